@@ -214,6 +214,7 @@ def c16_rf16(run):
     run.min_instances('RF16a', 5)
     run.min_instances('RF16b', 4)
     rf_proto.rf16j(run)
+    rf_proto.rf16k(run)
     rf_dispatch.rf7g(run)
     run.min_instances('RF7g', 60)
 
